@@ -107,13 +107,24 @@ example : ∃ s, run (init 2) [.queueUnsendable 3, .queueUnsendable 4] = some s 
 connection is failed and nothing stays registered. -/
 theorem timeout_fails_everything {q : Nat} {s s' : St} (h : Reachable q s)
     (hs : step s .timeout = some s') : s'.done = true ∧ s'.sent = [] := by
-  have hd : s'.done = true := by
-    simp only [step] at hs
-    split at hs
-    · cases hs
-    · injection hs with hs; subst hs
-      exact done_failConn _
-  exact ⟨hd, ((good_reachable (reachable_step h hs)).gr.go.doneSent hd).1⟩
+  simp only [step] at hs
+  split at hs
+  · cases hs
+  · rename_i hen
+    simp only [Bool.or_eq_true, not_or] at hen
+    have hrd : s.reader = .reading := by simpa using hen.1
+    -- the reader is parked in `Read`, so the connection has not failed yet
+    have hlive : s.done = false := by
+      cases hd : s.done
+      · rfl
+      · exact absurd hrd ((good_reachable h).dr hd)
+    injection hs with hs; subst hs
+    refine ⟨done_failConn _, ?_⟩
+    show (failConn { s with reader := .exited }).sent = []
+    rw [failConn_eq]
+    show (if s.done = true then _ else _ : St).sent = []
+    rw [hlive]
+    rfl
 
 /-- … and every outstanding call has received its connection-level error -/
 example : ∃ s, run (init 2) [.queueDirect 1, .write (.direct 1) true .ok, .arm (.direct 1) .ok,
